@@ -2,7 +2,6 @@ package git
 
 import (
 	"context"
-	"fmt"
 	"io"
 	"io/ioutil"
 
@@ -178,7 +177,8 @@ func unpackOneRepo(
 			fmeta.Type = fs.Type_Dir
 			fmeta.Perms = 0755
 			dirs = append(dirs, fmeta.Name)
-		case filemode.Regular:
+		case filemode.Regular, filemode.Deprecated:
+			// (0100664, the group-writable mode of very old git: git itself treats it as a regular file.)
 			fmeta.Type = fs.Type_File
 			fmeta.Perms = 0644
 		case filemode.Executable:
@@ -224,12 +224,8 @@ func unpackOneRepo(
 				return err
 			}
 			continue
-		case filemode.Empty:
-			fallthrough
-		case filemode.Deprecated:
-			fallthrough
 		default:
-			panic(fmt.Errorf("unknown git filemode %#v", te.Mode))
+			return Errorf(rio.ErrWareCorrupt, "corrupt git tree: entry %q has unknown filemode %#v", name, te.Mode)
 		}
 
 		// Apply filters.
